@@ -138,6 +138,7 @@ class SessionManager:
         self._method_counts = defaultdict(int)
         self._reorg_count = 0
         self._notified_reorg_count = 0
+        self._notify_count = 0
         self._history_cache = pylru.lrucache(1000)
         self._history_lookups = 0
         self._history_hits = 0
@@ -829,7 +830,13 @@ class SessionManager:
             result = self._history_cache[hashX]
             self._history_hits += 1
         except KeyError:
-            result = await self.db.limited_history(hashX, limit=limit)
+            # Ensure the history is fresh before placing in the cache or computing a status
+            # from it: a notification may be processed while the DB read is in flight
+            while True:
+                notify_count = self._notify_count
+                result = await self.db.limited_history(hashX, limit=limit)
+                if notify_count == self._notify_count:
+                    break
             cost += 0.1 + len(result) * 0.001
             if len(result) >= limit:
                 result = RPCError(BAD_REQUEST, 'history too large', cost=cost)
@@ -841,6 +848,7 @@ class SessionManager:
 
     async def _notify_sessions(self, height, touched):
         '''Notify sessions about height changes and touched addresses.'''
+        self._notify_count += 1
         # A reorg can end at the height already notified: the tip and histories changed anyway
         height_changed = (height != self.notified_height
                           or self._reorg_count != self._notified_reorg_count)
